@@ -1,8 +1,11 @@
 /-
   Oracle commands for C17 (streaming / non-streaming / OpenAI-compatible responses).
 
-    run <variant> <ep> <stream 0|1> <raw 0|1> <tools 0|1> <usage 0|1> <promptLen> <end> <chunks> <parse>
-      variant: 0 pinned /repo; bit 0 = F17a/b repaired (ChatHandler tools), bit 1 = F17c repaired (openai stream errors)
+    run <variant> <ep> <stream 0|1> <raw 0|1> <tools 0|1> <usage 0|1> <hist 0|1> <promptLen> <fault> <end> <chunks> <parse>
+      variant: bit 0 = F17a/b repaired (ChatHandler tools), bit 1 = F17c repaired (openai stream errors),
+               bit 2 = F17b alone (non-stream call numbering), bit 3 = F17d repaired (run without done -> error)
+      hist   : generate: the request supplies `context`; chat: the conversation has more than one message
+      fault  : none | load:<hex> | detok:<hex> | tok:<hex>   (runner method failing outside Completion)
       ep     : gen | chat | oachat | oacmpl | cgen | cchat
       end    : ok | err:<hex>                         (return value of Completion)
       chunks : <n> {contenthex done reason pec ec}*   (what the runner hands to the callback)
@@ -98,40 +101,68 @@ def onceAsItems {α : Type} : Except Bytes α → List (Item α)
   | .ok m => [.msg m]
   | .error e => [.err e]
 
+def pFault : TP Fault := do
+  let t ← tok
+  if t == "none" then pure .none
+  else match t.splitOn ":" with
+    | [k, h] => match unhex h with
+      | some b => if k == "load" then pure (.load b) else if k == "detok" then pure (.detok b)
+                  else if k == "tok" then pure (.tok b) else failure
+      | none => failure
+    | _ => failure
+
+def showStreamH {α : Type} (f : α → String) : Except Bytes (List (Item α)) → String
+  | .ok items => line 200 (items.map (showItem f))
+  | .error e => line 500 [s!"e:{hexOrDash e}"]
+
+def showOaStreamH : Except Bytes (List OaEv) → String
+  | .ok evs => line 200 (evs.map showOa)
+  | .error e => line 500 [showOa (.error e)]
+
+def streamAsItems {α : Type} : Except Bytes (List (Item α)) → List (Item α)
+  | .ok items => items
+  | .error e => [.err e]
+
 def handle (toks : List String) : Option String :=
   match toks with
   | "run" :: rest =>
     runTP (do
       let variant ← nat
-      let fixT := variant % 2 == 1
-      let fixE := variant / 2 % 2 == 1
+      let v : Variant := { toolsStream := variant % 2 == 1,
+                           toolsIndex := variant % 2 == 1 || variant / 4 % 2 == 1,
+                           oaErr := variant / 2 % 2 == 1,
+                           incomplete := variant / 8 % 2 == 1 }
       let ep ← tok
       let stream := (← nat) != 0
       let raw := (← nat) != 0
       let tools := (← nat) != 0
       let usage := (← nat) != 0
+      let hasCtx := (← nat) != 0
       let pl ← nat
+      let f ← pFault
       let e ← pEnd
       let cs ← listOf pChunk
       let tbl ← listOf pEntry
       let parse := lookup tbl
       match ep with
       | "gen" =>
-        pure (if stream then line 200 ((genStream raw pl cs e).map (showItem showGen))
-              else showOnce showGen (genOnce raw pl cs e))
+        pure (if stream then showStreamH showGen (generateStreamH v f raw hasCtx pl cs e)
+              else showOnce showGen (generateOnceH v f raw hasCtx pl cs e))
       | "chat" =>
-        pure (if stream then line 200 ((chatStreamV fixT parse tools cs e).map (showItem showChat))
-              else showOnce showChat (chatOnceV fixT parse tools cs e))
+        pure (if stream then showStreamH showChat (chatStreamH v f parse tools hasCtx cs e)
+              else showOnce showChat (chatOnceH v f parse tools hasCtx cs e))
       | "oachat" =>
-        pure (if stream then line 200 ((oaChatStreamV fixE usage (chatStreamV fixT parse tools cs e)).map showOa)
-              else let ev := oaChatOnce (chatOnceV fixT parse tools cs e); line (oaStatus ev) [showOa ev])
+        pure (if stream then showOaStreamH (oaChatStreamH v usage (chatStreamH v f parse tools hasCtx cs e))
+              else let ev := oaChatOnce (chatOnceH v f parse tools hasCtx cs e); line (oaStatus ev) [showOa ev])
       | "oacmpl" =>
-        pure (if stream then line 200 ((oaCmplStreamV fixE usage (genStream false pl cs e)).map showOa)
-              else let ev := oaCmplOnce (genOnce false pl cs e); line (oaStatus ev) [showOa ev])
+        pure (if stream then showOaStreamH (oaCmplStreamH v usage (generateStreamH v f false hasCtx pl cs e))
+              else let ev := oaCmplOnce (generateOnceH v f false hasCtx pl cs e); line (oaStatus ev) [showOa ev])
       | "cgen" =>
-        pure (showClient showGen (clientView (if stream then genStream raw pl cs e else onceAsItems (genOnce raw pl cs e))))
+        pure (showClient showGen (clientView (if stream then streamAsItems (generateStreamH v f raw hasCtx pl cs e)
+                                              else onceAsItems (generateOnceH v f raw hasCtx pl cs e))))
       | "cchat" =>
-        pure (showClient showChat (clientView (if stream then chatStreamV fixT parse tools cs e else onceAsItems (chatOnceV fixT parse tools cs e))))
+        pure (showClient showChat (clientView (if stream then streamAsItems (chatStreamH v f parse tools hasCtx cs e)
+                                               else onceAsItems (chatOnceH v f parse tools hasCtx cs e))))
       | _ => failure) rest
   | _ => none
 
